@@ -6,8 +6,8 @@ import stages2v
 
 META = {
     "id": "C04", "category": "proof", "design_ref": "DESIGN.md section 4, C04",
-    "technique": "Coq: driver programs regenerated from engine_forward.c by a fail-closed translator; a proved-sound syntactic checker decides split/skip equivalence on the regenerated programs for every interpretation of the stages; stage-commutation premises and end-to-end equality validated bitwise on the implementation",
-    "text": "Proved (Coq, closed, for every interpretation of stage functions/conditions): mj_step1;U;mj_step2 = U;mj_step for Euler/implicit/implicitfast given that U commutes with the computed prefix of stages (no callback), the same with a control callback and no user update, and mj_forwardSkip(POS|VEL) = full call on data where the skipped prefix is a no-op. The programs are regenerated from src/engine/engine_forward.c on every run, so a change of the driver logic breaks the proof. The commutation premises (per stage of the prefix) and the end-to-end equalities (step vs step1/step2, skip vs full, forward purity, forward idempotence without warm start) are checked bitwise on the real code on random models: that part is validation, not proof. mj_inverseSkip and RK4 are not covered.",
+    "technique": "Coq: driver programs regenerated from engine_forward.c and engine_inverse.c by a fail-closed translator; a proved-sound syntactic checker decides split/skip equivalence on the regenerated programs for every interpretation of the stages; stage-commutation premises and end-to-end equality validated bitwise on the implementation",
+    "text": "Proved (Coq, closed, for every interpretation of stage functions/conditions): mj_step1;U;mj_step2 = U;mj_step for Euler/implicit/implicitfast given that U commutes with the computed prefix of stages (no callback), the same with a control callback and no user update, and mj_forwardSkip(POS|VEL) = full call on data where the skipped prefix is a no-op. The programs are regenerated from src/engine/engine_forward.c on every run, so a change of the driver logic breaks the proof. The commutation premises (per stage of the prefix) and the end-to-end equalities (step vs step1/step2, skip vs full, forward purity, forward idempotence without warm start) are checked bitwise on the real code on random models: that part is validation, not proof. mj_inverseSkip(POS|VEL) = mj_inverse on data where the removed middle segment of the regenerated engine_inverse.c program is a no-op (statements outside the driver language are uninterpreted functions of the state, named by their text). RK4 is not covered (the property excludes it for the split).",
     "note": "Trusted: Coq kernel; translate/stages2v.py (erases timer bookkeeping only); the stage functions themselves are uninterpreted (their read/write behaviour is validated by execution, not proved); gcc; harness drivers c04_pipeline.c, mjgen.h, mjcmp.h. Theorems closed under the global context.",
     "assumptions": ["stage functions are deterministic functions of mjData (validated by bitwise comparison on generated models)",
                     "no passive flex contact (mj_forwardSkip raises an error that mj_step1 does not)"],
@@ -27,16 +27,18 @@ def gen(ctx):
 
 def run(ctx):
     rng = ctx.rng
-    ok = ctx.coq_props(allowed_axioms=(), gen=gen(ctx), extra_targets=["Proof/C04SkipProof.vo"])
+    ok = ctx.coq_props(allowed_axioms=(), gen=gen(ctx), extra_targets=["Proof/C04SkipProof.vo", "Proof/C04InvProof.vo"])
     # prefix of stages the user update must commute with, computed by Coq from the regenerated programs
     prefix_calls = None
     okr, out = ctx.coq_run("c04_prefix", """From Coq Require Import String List.
-From MJV Require Import Model.Pipeline Gen.Pipeline Proof.C04Proof Proof.C04SkipProof.
+From MJV Require Import Model.Pipeline Gen.Pipeline Proof.C04Proof Proof.C04SkipProof Proof.C04InvProof.
 Import ListNotations. Open Scope string_scope.
 Definition pc := match split_prefix asm_nocb "mjINT_EULER" with Some p => items_calls p | None => ["<none>"] end.
 Definition sk := match skip_prefix "mjSTAGE_VEL" "0" with Some p => items_calls p | None => ["<none>"] end.
+Definition im := match skip_mid "mjSTAGE_VEL" "0" with Some (_, p) => items_calls p | None => ["<none>"] end.
 Eval vm_compute in pc.
 Eval vm_compute in sk.
+Eval vm_compute in im.
 """) if ok or True else (False, "")
     if okr:
         lists = re.findall(r"=\s*\[(.*?)\]\s*:\s*list string", out, flags=re.S)
@@ -45,6 +47,8 @@ Eval vm_compute in sk.
         ctx.cov["split_prefix"] = prefix_calls
         if len(lists) >= 2:
             ctx.cov["skip_prefix_VEL"] = re.findall(r'"([^"]*)"', lists[1])
+        if len(lists) >= 3:
+            ctx.cov["inverse_skipped_segment_VEL"] = re.findall(r'"([^"]*)"', lists[2])
     exe = ctx.driver("c04_pipeline", ["c04_pipeline.c"])
     if exe is None:
         return
@@ -62,6 +66,9 @@ Eval vm_compute in sk.
         for skip in (1, 2):
             for solver in (0, 1, 2):
                 cases.append(("S", "S %d %d %d %d %d %d %d %d" % (seed, feat, nb, rng.choice([0, 2, 3]), en, skip, solver, rng.choice([0, 1]))))
+            # mj_inverseSkip vs mj_inverse; enable bits: energy 2, fwdinv 4, invdiscrete 8, diagexact(32)
+            ien = rng.choice([0, 2, 8, 10, 32, 34])
+            cases.append(("V", "V %d %d %d %d %d %d %d %d" % (seed, feat, nb, rng.choice([0, 2, 3]), ien, skip, rng.choice([0, 1, 2]), rng.choice([0, 1]))))
     # fixed corpus: the repaired mj_step1 callback defect
     cases.insert(0, ("E", "E 3 %d 3 0 0 2048 2 5 2 0" % ALLF))
     hyp_cases = []
@@ -88,16 +95,19 @@ Eval vm_compute in sk.
             ctx.broken.append(("correspondence", "stage %s of the regenerated program is unknown to the harness" % line.split()[1],
                                "add it to the stage table of c04_pipeline.c after reading what it does"))
             continue
+        if line.startswith("ERR") and kind == "V":
+            continue   # models on which mj_inverse raises an engine error are outside the comparison
         what = {"E": "mj_step1;U;mj_step2 differs from U;mj_step", "S": "mj_forwardSkip / purity / idempotence",
+                "V": "mj_inverseSkip differs from mj_inverse although the skipped stages' inputs are unchanged",
                 "H": "user update does not commute with a stage of the split prefix"}[kind]
         ctx.violation("impl_violation", {"driver_input": inp}, expected="bitwise identical mjData", observed=line,
-                      theorem={"E": "C04_step12_user/C04_step12_callback", "S": "C04_skip", "H": "C04_step12_user (premise)"}[kind],
-                      signature={"site": {"E": "mj_step1/mj_step2", "S": "mj_forwardSkip", "H": "stage-commutation"}[kind], "what": what})
+                      theorem={"E": "C04_step12_user/C04_step12_callback", "S": "C04_skip", "V": "C04_inverse_skip", "H": "C04_step12_user (premise)"}[kind],
+                      signature={"site": {"E": "mj_step1/mj_step2", "S": "mj_forwardSkip", "V": "mj_inverseSkip", "H": "stage-commutation"}[kind], "what": what})
     ctx.cov["evaluations"] = len(allc)
     ctx.cov["distinct_nontrivial"] = len(nontriv)
     ctx.cov["rule"] = ("random mjgen models (seed, feature mask, nbody) x integrators {Euler, implicit, implicitfast} x solvers {PGS, CG, Newton} x cones x enable flags {energy, fwdinv} with a "
-                       "random user update between the halves; callback variants incl. actuation disabled; skip stages POS/VEL with purity and idempotence; "
+                       "random user update between the halves; callback variants incl. actuation disabled; skip stages POS/VEL with purity and idempotence; mj_inverseSkip(POS|VEL) vs mj_inverse after perturbing qacc (and qvel) with flags {energy, invdiscrete, diagexact}; "
                        "commutation of the user update with every stage of the Coq-computed prefix; non-trivial = distinct case that ran without error (E cases: with nefc > 0)")
     ctx.cov["samples"] = [c[1] for c in (allc[0], allc[5], allc[-1])]
-    ctx.cov["translator_inputs"] = ["src/engine/engine_forward.c", "include/mujoco/mjtype.h"]
-    ctx.cov["explanation"] = "4 theorems over the regenerated driver programs; premises and end-to-end equalities validated bitwise on %d implementation runs" % len(allc)
+    ctx.cov["translator_inputs"] = ["src/engine/engine_forward.c", "src/engine/engine_inverse.c", "include/mujoco/mjtype.h"]
+    ctx.cov["explanation"] = "6 theorems over the regenerated driver programs; premises and end-to-end equalities validated bitwise on %d implementation runs" % len(allc)
